@@ -14,6 +14,28 @@ CLAIMED = {
         "inputs/schedules quantifier is proved.",
    technique="Rocq proof: verified reflective equivalence checker (explore_sound) applied per compiled program; reference semantics in Gallina",
    design_ref="DESIGN.md §6 C01, Appendix A"),
+ "C14": dict(
+   text="Proof. Per configuration (capacity N, data width, stack mode) a kernel-checked theorem: for ALL admissible input sequences (every interleaving of push/pop/reset, all data values) "
+        "the parsed VHDL of a wrapper around the REAL std.Fifo / std.Stack has the same trace (data out, empty, full, size) as the abstract bounded queue / stack specification. "
+        "Configurations are enumerated (N and w up to the listed bounds); sequences are proved, not sampled.",
+   technique="Rocq proof: verified product-reachability checker (explore_sound) against an abstract queue/stack specification per compiled configuration",
+   design_ref="DESIGN.md §6 C14"),
+ "C15": dict(
+   text="Proof. Per (component, usage form, tx/rx delay) a kernel-checked theorem: for ALL input sequences (every relative timing of producer and consumer, every payload) the hand-over "
+        "monitor (exactly once, in order, unmodified, no send while set, bounded response) never flags on the parsed VHDL of a wrapper around the REAL std.SyncFlag / std.Mailbox.",
+   technique="Rocq proof: verified reachability checker on design x safety-monitor product (mcheck_sound) per compiled configuration",
+   design_ref="DESIGN.md §6 C15"),
+ "C16": dict(
+   text="Proof. wait_for/Waiter.wait_for (constant and run-time, first/middle/loop positions): theorem per program against the coroutine reference semantics extended with 'resume exactly n clocks later'; "
+        "DelayLine/delayed, continuous_counter, ClockDivider, ToggleSignal, debounce: theorem per parameter setting against specification machines, for all input/enable sequences. "
+        "Parameters enumerated to the listed bounds. Duration.count_periods: differential on integral ratios only (binary64 not modelled).",
+   technique="Rocq proof: verified product-reachability checker per compiled utility/parameter; reference machines in Gallina",
+   design_ref="DESIGN.md §6 C16"),
+ "C17": dict(
+   text="Proof. Unbounded theorems over all type compositions (mutual structural induction): width, value round-trip, bit round-trip, injectivity, record/array/std.Array layout, Serialized, BitField exact range; "
+        "plus a per-run correspondence of the Gallina model with the real classes on generated type compositions/values (evaluated inside Coq) and a direct check of the laws on the real results.",
+   technique="Rocq proof by structural induction on a Gallina model of to_bits/from_bits; model tied to code by vm_compute correspondence on generated types",
+   design_ref="DESIGN.md §6 C17"),
 }
 ALL = ["C%02d" % i for i in range(1, 21)]
 
@@ -41,7 +63,7 @@ def main():
         "setup_cmd": "cd /verif/coq && coq_makefile -f _CoqProject -o Makefile && timeout 3000 make -j16",
         "hooks": {"guard": "COHDL_VERIF", "enable": "no instrumentation hooks are needed; checks import /repo's working tree with PYTHONPATH=/repo (COHDL_VERIF=1 is set but unused)",
                   "baseline_off_cmd": "cd /repo && /venv/bin/python -m pytest -ra -q -p no:cacheprovider --timeout=900 --continue-on-collection-errors",
-                  "source_commits": [], "add_only": True},
+                  "source_commits": ["3476bfe", "f803d4c", "1abaf18", "c2629f5", "facaad0", "1fd038a", "3cbec06"], "add_only": True},
         "engines": [
             {"name": "coq-theories", "path": "/verif/coq", "serves_properties": sorted(CLAIMED), "kind_free_text": "Coq 8.16.1 development: models, semantics, verified checker, property theorems (full .vo build)"},
             {"name": "coq-cases", "path": "/verif/gen", "serves_properties": sorted(CLAIMED), "kind_free_text": "per-run generated obligations evaluated/proved by coqc (vm_compute)"},
